@@ -138,6 +138,8 @@ pub fn explore(ctx: &Ctx) {
             sites.push(Site::new(lat, lon, 0.0, gmt));
         }
     }
+    sites.extend(off_lattice_sites(quick, 60.0));
+    ctx.alphabet("off_lattice_sites", json!(off_lattice_sites(quick, 60.0)));
     ctx.alphabet("far_zone_sites_lon_gmt", json!(far));
     ctx.alphabet("sites", json!({"count": sites.len(), "lats": lats, "zones": zs.len()}));
     ctx.alphabet("dates_main", json!({"range": "1600-01-01..2399-12-31", "count": all.len(), "method": "Mwl, policy None"}));
